@@ -3,7 +3,7 @@ from vlib import gen_ops
 
 ID = "C10"
 LEAN_MODULES = ["Econf.Props.C10"]
-THEOREMS = []
+THEOREMS = ["Econf.C10_readonly", "Econf.C10_later_answers", "Econf.C10_later_write"]
 RULE = ("random configurations (parsed and built, with mixed-case, boolean-like and non-boolean values) x random sequences of 1..40 "
         "read-only calls (listings, typed/defaulted/extended getters incl. failing ones, path/tag queries, writes, use as merge input); "
         "the full dump (entries, comments, line numbers, public view, written bytes) before and after must be identical; "
